@@ -7,7 +7,7 @@
 Require Import List Arith Lia Bool ZArith QArith Qround Qcanon Permutation.
 From TK Require Import Mat_Sums Mat_Core Mat_Qc Spe_Model Spe_Spec Spe_Proof_Lists Spe_Proof_Index
      Spe_Proof_Coord Spe_Proof_Closed Spe_Run_Model Spe_Proof_Run Spe_Des_Model Spe_Proof_Des
-     Spe_Sched_Model Spe_Proof_Sched.
+     Spe_Sched_Model Spe_Proof_Sched Spe_Proof_SchedFloat.
 Import ListNotations.
 Local Open Scope nat_scope.
 
@@ -666,11 +666,18 @@ Theorem lambda_step : forall T t,
 Proof. exact lam_step. Qed.
 Print Assumptions lambda_step.
 
+(* lambda never comes near zero: at the end of ANY schedule of at least two iterations it lies in [2/9, 1/2] *)
+Theorem lambda_final_bounds : forall T, 2 <= T -> (2 # 9 <= lam_seq T T)%Q /\ (lam_seq T T <= 1 # 2)%Q.
+Proof. exact (fun T H => conj (lam_final_lower T H) (lam_final T (Nat.le_trans 1 2 T (Nat.le_succ_diag_r 1) H))). Qed.
+Print Assumptions lambda_final_bounds.
+Example lambda_final_bounds_nonvacuous : 2 <= 2000.
+Proof. lia. Qed.
+
 Theorem lambda_schedule_automatic : forall (global : bool) (N t : nat),
   let T := sc_div (spe_schedule global N 0) in
   T = auto_iterations global N /\ 2000 <= T /\ sc_loop (spe_schedule global N 0) = T /\
   (0 < lam_seq T t)%Q /\ (lam_seq T t <= 1)%Q /\ (lam_seq T (S t) < lam_seq T t)%Q /\
-  (2 * t <= T -> (1 # 2 <= lam_seq T t)%Q) /\ (lam_seq T T <= 1 # 2)%Q.
+  (2 * t <= T -> (1 # 2 <= lam_seq T t)%Q) /\ (2 # 9 <= lam_seq T T)%Q /\ (lam_seq T T <= 1 # 2)%Q.
 Proof. exact lambda_schedule_automatic_proof. Qed.
 Print Assumptions lambda_schedule_automatic.
 
@@ -734,3 +741,15 @@ Proof.
   apply Forall_forall. intros i Hi. apply repeat_spec in Hi. subst i. cbn [it_from].
   apply is_perm_b_ok. reflexivity.
 Qed.
+
+(* VALIDATION of the Z-level binary64 rounding model (Spe_Sched_Model.b64_round / sched_q) against Coq's primitive
+   binary64 floats: `floor(0.04 * N * N)` computed with PrimFloat.mul equals sched_q N for every N <= 2048 (complete
+   enumeration).  This is the ONLY statement of this file whose Print Assumptions is not "Closed under the global
+   context": it lists the kernel primitives PrimFloat.* / PrimInt63.* it computes with (no FloatAxioms, no logical axiom). *)
+Theorem sched_q_matches_primitive_floats : forall N, N <= 2048 ->
+  float_sched_q N = Some (Z.of_nat (sched_q N)).
+Proof. exact sched_q_matches_primitive_floats_proof. Qed.
+Print Assumptions sched_q_matches_primitive_floats.
+Example sched_q_matches_primitive_floats_nonvacuous : 205 <= 2048 /\ float_sched_q 205 = Some 1680%Z.
+Proof. split; [lia|vm_compute; reflexivity]. Qed.
+
